@@ -5,7 +5,8 @@ from ..common import *
 from .. import common, build, lean, check, script, wiregen
 
 MODULE = "Dbus.Props.C12"
-THEOREMS = []
+THEOREMS = ["set_reads_back", "set_frame", "delete_removes", "delete_frame", "removeUnknown_frame", "removeUnknown_all_known",
+            "edit_leaves_rest", "edit_roundtrip", "padding_exact"]
 
 
 def val_for(rng, code, k):
